@@ -395,6 +395,79 @@ func (p *Prog) groupOf(fb *FuncBody, depth int) []*FuncBody {
 	return out
 }
 
+// setterStoresArg: when call is `x.m(…, a, …)` to a declared method of the module whose body stores the parameter bound to a,
+// unconditionally and exactly once, in a field of its receiver (`func (x *T) finish(err error) { x.err = err; … }`): the
+// argument a, the receiver expression x and the field.
+func setterStoresArg(p *Prog, info *types.Info, call *ast.CallExpr) (ast.Expr, ast.Expr, *types.Var) {
+	sel, ok := ast.Unparen(call.Fun).(*ast.SelectorExpr)
+	if !ok {
+		return nil, nil, nil
+	}
+	fn, ok := callee(info, call).(*types.Func)
+	if !ok {
+		return nil, nil, nil
+	}
+	h := p.DeclOf(fn)
+	if h == nil || h.Decl == nil || h.Body == nil || h.Decl.Recv == nil || len(h.Decl.Recv.List) != 1 || len(h.Decl.Recv.List[0].Names) != 1 || !strings.HasPrefix(h.Pkg.PkgPath, Mod) {
+		return nil, nil, nil
+	}
+	hinfo := h.Info()
+	recv, _ := hinfo.Defs[h.Decl.Recv.List[0].Names[0]].(*types.Var)
+	if recv == nil {
+		return nil, nil, nil
+	}
+	var params []*types.Var
+	for _, fld := range h.Type.Params.List {
+		for _, id := range fld.Names {
+			v, _ := hinfo.Defs[id].(*types.Var)
+			params = append(params, v)
+		}
+		if len(fld.Names) == 0 {
+			params = append(params, nil)
+		}
+	}
+	var field *types.Var
+	argIdx, nStores := -1, map[*types.Var]int{}
+	inspectDeep(h.Body, func(n ast.Node) bool {
+		as, ok := n.(*ast.AssignStmt)
+		if !ok {
+			return true
+		}
+		for i, l := range as.Lhs {
+			ls, ok := ast.Unparen(l).(*ast.SelectorExpr)
+			if !ok || varOf(hinfo, ls.X) != recv {
+				continue
+			}
+			f, _ := hinfo.Uses[ls.Sel].(*types.Var)
+			if f == nil {
+				continue
+			}
+			nStores[f]++
+			top := false
+			for _, st := range h.Body.List {
+				if st == ast.Stmt(as) {
+					top = true
+				}
+			}
+			if !top || len(as.Lhs) != len(as.Rhs) {
+				continue
+			}
+			if v := varOf(hinfo, as.Rhs[i]); v != nil {
+				for j, pv := range params {
+					if pv == v && pv != nil {
+						field, argIdx = f, j
+					}
+				}
+			}
+		}
+		return true
+	})
+	if field == nil || nStores[field] != 1 || argIdx >= len(call.Args) {
+		return nil, nil, nil
+	}
+	return call.Args[argIdx], sel.X, field
+}
+
 // passThroughArg: when call is to a declared function of the module that yields one of its own parameters, unchanged, as its
 // last result on every return (a "finish(err) error { …; return err }" helper), the argument bound to that parameter.
 func passThroughArg(p *Prog, info *types.Info, call *ast.CallExpr) ast.Expr {
